@@ -24,6 +24,7 @@ def mk_graph_project(rng, depth=None):
     ns = rng.pick([None, None, "common"])
     kind = target_kinds(rng)
     depth = depth or rng.range(1, 4)
+    shape = rng.below(len(RANGE_SHAPES))
     inherits = {}
     if len(locales) > 2 and rng.chance(1, 2):
         inherits[locales[2]] = locales[1]
@@ -40,7 +41,8 @@ def mk_graph_project(rng, depth=None):
         elif r == 2:
             a = {"x": "{{ y }}", "y": "unused"}
         elif r == 3 and kind in ("range", "plural"):
-            a = {"count": rng.pick([0, 1, 2, 5, 21])}
+            # literal counts sit on and next to every bound of the target's branches (RANGE_SHAPES)
+            a = {"count": rng.pick(RANGE_SHAPES[shape][2] if kind == "range" else [0, 1, 2, 5, 21])}
         elif r == 4 and kind in ("range", "plural"):
             a = {"count": rng.pick(["{{ n }}", " {{ total }} "])}
         elif r == 5 and rng.chance(1, 2):
@@ -58,8 +60,9 @@ def mk_graph_project(rng, depth=None):
         elif kind == "lit":
             tv = rng.pick([proj.U(7), True, "plain " + l])
         elif kind == "range":
-            tv = proj.A(["u8", proj.A([f"[{l}] zero {{{{ x }}}}", proj.U(0)]), proj.A([f"[{l}] few {{{{ count }}}} {{{{ x }}}}", "1..=5"]),
-                         proj.A([f"[{l}] many {{{{ count }}}}"])])
+            ty, specs, _ = RANGE_SHAPES[shape]
+            texts = [f"[{l}] zero {{{{ x }}}}", f"[{l}] few {{{{ count }}}} {{{{ x }}}}", f"[{l}] some <b>{{{{ y }}}}</b>", f"[{l}] lots {{{{ x }}}}{{{{ y }}}}"]
+            tv = proj.A([ty] + [proj.A([texts[j % 4]] + list(sp)) for j, sp in enumerate(specs)] + [proj.A([f"[{l}] many {{{{ count }}}}"])])
         elif kind == "plural":
             tv = None
         else:
@@ -85,6 +88,16 @@ def mk_graph_project(rng, depth=None):
         files[(ns, l)] = proj.O(rng.shuffle(pairs))
     return {"default": default, "locales": locales, "all_locales": locales, "namespaces": [ns] if ns else None, "inherits": inherits,
             "files": files, "extra_cfg": False, "meta": {}, "graph": meta}
+
+
+# (type, branch specifications, literal counts on / next to every bound); every shape ends with a fallback branch
+RANGE_SHAPES = [
+    ("u8", [[proj.U(0)], ["1..=5"]], [0, 1, 2, 5, 6, 21]),
+    ("i32", [["..0"], ["0..3"], ["3..=7"]], [-1, 0, 2, 3, 7, 8]),
+    ("u16", [["2..4", proj.U(9)], ["4..=4"], ["10.."]], [1, 2, 3, 4, 5, 9, 10]),
+    ("f32", [["..0.0"], ["0.0..15.0"], ["15.0..30.0"]], [-0.5, 0.0, 14.5, 15.0, 29.5, 30.0]),
+    ("f64", [["..=1.5"], ["1.5..2.5", "7.25"], ["2.5..=4.0"]], [1.5, 1.25, 2.5, 2.25, 4.0, 4.5, 7.25]),
+]
 
 
 def cyclic_projects(nkeys):
